@@ -512,11 +512,15 @@ def compare(p, mline):
         got_names = [s["name"] for s in p["subs"]]
         if got_names != exp_names:
             bad.append(("C02", "run submitted %r, model plans %r (patterns %r)" % (got_names, exp_names, p["patterns"])))
-        if p["tracked"] != unkv(m.get("tracked", "")):
+        # when the PLAN differs (C02's business) the tracked ids, the cluster's job list and the recorded
+        # hashes necessarily differ too: that is a consequence, not a second defect, and is not attributed
+        # to C07 / C18 (their own defects show up in steps whose plan agrees)
+        same_plan = got_names == exp_names
+        if same_plan and p["tracked"] != unkv(m.get("tracked", "")):
             bad.append(("C07", "tracked job ids after run %r, model %r" % (p["tracked"], unkv(m.get("tracked", "")))))
-        if p["jobs"] != unjobs(m.get("jobs", "")):
+        if same_plan and p["jobs"] != unjobs(m.get("jobs", "")):
             bad.append(("C07", "cluster jobs/prerequisites after run %r, model %r" % (p["jobs"], unjobs(m.get("jobs", "")))))
-        if p["hashes"] != unkv(m.get("hashes", "")):
+        if same_plan and p["hashes"] != unkv(m.get("hashes", "")):
             bad.append(("C18", "spec hashes after run %r, model %r" % (p["hashes"], unkv(m.get("hashes", "")))))
         if not p["files_same"]:
             bad.append(("C05", "gwf run modified workflow files"))
